@@ -65,6 +65,11 @@ CHECKS = {
     technique="TLA+ specs Ring.tla / WorkLoop.tla / WLHard.tla model-checked by TLC; every edge of the state graphs replayed on the current ring.go / atomic_maybe_work.go under a deterministic scheduler (binding R)",
     text="Ring.tla (one action per critical section, cond.Wait split into park/resume, Signal waking a nondeterministically chosen waiter, growth/shrink, die) and WorkLoop.tla (one action per atomic Load/CAS/Store) are checked exhaustively for FIFO, no loss/duplication, at most one worker, parked-only-while-full, dead-rejects, no lost wake-up and termination. The TLC state graph is dumped, walks covering every edge (plus random walks) are exported, and each is executed on the CURRENT source files copied with sync/xsync/atomic rewritten to harness/ctl, where every primitive operation is a scheduler step and the replayer picks the thread and the waiter a Signal wakes; after each step the real state (length, contents, parked/woken pushers, worker, processed/accepted/rejected; latch word, pending work, thread positions) is compared with the spec state, and two live workers or stranded work are flagged directly.",
     note="Bounds: up to 4 pushers / 3 signallers, 1-3 operations each, maxLen 0-2, minRingCap scaled to 2 so growth/shrink are reached; the extractor exits 2 if a file no longer matches; the transient hardFinish user in source.go is covered at design level only (WLHard.tla)."),
+ "C31": dict(
+    level="model_checking", design="5/C31, 4.3",
+    technique="TLA+ specs PollGate.tla / XMutex.tla model-checked by TLC (exclusion, counters, no lost wake-up, no deadlock, liveness); every edge of the state graphs replayed on the current sources under a deterministic scheduler (binding R)",
+    text="PollGate.tla models the BlockRebalanceOnPoll gate (one action per critical section under pollWaitMu, cond.Wait split, Broadcast, the guarded decrement, AllowRebalance, and the documented misuse as a named environment action); XMutex.tla models the channel-based RWMutex at the grain of single channel operations. TLC checks RevokeExcludesPolls, CountsExact, NoBorrow, NoLostWakeup, WriterAlone, NoPanic, NoDeadlock and liveness exhaustively; the state graphs are dumped and every edge (plus random walks) is executed on the poll-gate methods copied from consumer.go and on synctest_mutex.go with channel operations rewritten to controlled channels, comparing counters, parked/woken threads, channel contents, reader count and thread positions after each step, and checking exclusion on the real run; the plain Mutex is explored by direct enumeration of all schedules.",
+    note="Bounds: 2 pollers x 2 rebalancers x 2 rounds; 2 writers, 2 readers, 1 try-locker, 1-2 rounds. The end-to-end BlockRebalanceOnPoll behaviour in a running group consumer is not part of this check."),
 }
 
 NOT_APPLICABLE = {
